@@ -463,6 +463,49 @@ func VerifC09Schemas1() { c09Schemas(1) }
 func VerifC09Schemas2() { c09Schemas(2) }
 
 // VerifC09ThreeWay: folding three versions is independent of their order.
+// c09RequiredSomewhereAbsentElsewhere: some argument or input field is non-null
+// on one schema, nullable on a second and absent from the same field / input
+// object on a third (the shape of the known three-way finding).
+func c09RequiredSomewhereAbsentElsewhere(ss []*IntrospectionQueryResult) bool {
+	type slot struct{ typ, field, arg string }
+	required, optional, holders := map[slot]bool{}, map[slot]bool{}, map[slot]int{}
+	present := map[slot]int{} // schemas that have the field / input object at all
+	for _, s := range ss {
+		for _, t := range s.Schema.Types {
+			for _, f := range t.Fields {
+				present[slot{t.Name, f.Name, ""}]++
+				for _, a := range f.Args {
+					k := slot{t.Name, f.Name, a.Name}
+					holders[k]++
+					if a.Type != nil && a.Type.Kind == "NON_NULL" {
+						required[k] = true
+					} else {
+						optional[k] = true
+					}
+				}
+			}
+			if t.Kind == "INPUT_OBJECT" {
+				present[slot{t.Name, "", ""}]++
+				for _, a := range t.InputFields {
+					k := slot{t.Name, "", a.Name}
+					holders[k]++
+					if a.Type != nil && a.Type.Kind == "NON_NULL" {
+						required[k] = true
+					} else {
+						optional[k] = true
+					}
+				}
+			}
+		}
+	}
+	for k := range required {
+		if optional[k] && holders[k] < present[slot{k.typ, k.field, ""}] {
+			return true
+		}
+	}
+	return false
+}
+
 func VerifC09ThreeWay() {
 	mode := c09Mode()
 	s := []*IntrospectionQueryResult{c09Schema("a", 1), c09Schema("b", 1), c09Schema("c", 1)}
@@ -476,7 +519,11 @@ func VerifC09ThreeWay() {
 			return
 		}
 	} else {
-		nondet.Assert((e1 == nil) == (e2 == nil) && (e1 == nil) == (e3 == nil), "order-independent")
+		class := ""
+		if c09RequiredSomewhereAbsentElsewhere(s) {
+			class = "required-nullable-absent"
+		}
+		nondet.AssertClass((e1 == nil) == (e2 == nil) && (e1 == nil) == (e3 == nil), "order-independent", class)
 		if e1 != nil || e2 != nil || e3 != nil {
 			return
 		}
